@@ -276,12 +276,30 @@ def run(ctx) -> None:
                 else:
                     ctx.fail("R23d", m, n.ast, inst, "masked read does not return the last value successfully read")
     ctx.floor("R23d", 5)
+    # ownership: the cache has no other writer and nothing ever removes an entry (a masked read after a removal
+    # would return None although a value had been read successfully)
+    REMOVERS = {"clear", "pop", "popitem", "update", "setdefault", "__delitem__", "__setitem__"}
     for fn in prog.iter_functions():
-        if fn.cls is cls and fn.name in ("read", "read_batch", "__init__"):
-            continue
         for n in walk_no_nested(fn.node):
-            if isinstance(n, ast.Assign) and any(isinstance(t, ast.Subscript) and "last_known_good_reads" in norm(t.value) for t in n.targets):
-                ctx.fail("R23d", fn, n, f"{fn.short}: {norm(n)}", "last_known_good_reads written outside the success path of read/read_batch")
+            what = None
+            if isinstance(n, (ast.Assign, ast.AugAssign, ast.AnnAssign)):
+                tgts = n.targets if isinstance(n, ast.Assign) else [n.target]
+                for t in tgts:
+                    if isinstance(t, ast.Subscript) and "last_known_good_reads" in norm(t.value):
+                        if not (fn.cls is cls and fn.name in ("read", "read_batch")):
+                            what = "written outside the success path of read/read_batch"
+                    elif isinstance(t, ast.Attribute) and t.attr == "last_known_good_reads":
+                        if not (fn.cls is cls and fn.name == "__init__"):
+                            what = "re-bound outside __init__: the values read so far are forgotten"
+            elif isinstance(n, ast.Delete):
+                if any("last_known_good_reads" in norm(t) for t in n.targets):
+                    what = "entries deleted: a later masked read returns None instead of the last value successfully read"
+            elif isinstance(n, ast.Call) and isinstance(n.func, ast.Attribute) and n.func.attr in REMOVERS \
+                    and "last_known_good_reads" in norm(n.func.value):
+                what = f"mutated by .{n.func.attr}(): a later masked read may return None/another value instead of the last " \
+                       "value successfully read"
+            if what:
+                ctx.fail("R23d", fn, n, f"{fn.short}: {norm(n)[:90]}", f"last_known_good_reads {what}")
 
     # ---- R23e
     from ..util import local_single_defs, expand_local
